@@ -75,7 +75,9 @@ pub fn relevant(prop: &str, v: &Violation) -> bool {
         "C14" => (safety && v.has_stash) || (v.prop == "C02" && v.tag == "unreachable-not-collected" && v.has_stash),
         "C20" => (c1to5 && v.multi_arena) || (v.prop == "C14" && v.multi_arena && matches!(v.tag, "contains-wrong" | "try-fetch-wrong" | "fetch-foreign-accepted")),
         "C10" => v.prop == "C04" && v.tag == "count-after-drop",
-        "C19" => false,
+        // "DynamicRootSet fetch ... yield pointers that are ptr_eq to the original": a set that accepts a
+        // foreign handle hands out a pointer to an object of another set / arena
+        "C19" => v.prop == "C14" && matches!(v.tag, "try-fetch-wrong" | "fetch-foreign-accepted" | "contains-wrong" | "fetch-wrong-object"),
         _ => false,
     }
 }
